@@ -446,13 +446,33 @@ def ovfpred_rule(chk, db):
                         return do == "le"
                     raise NM()      # digit == r is not distinguished from digit < r in this domain
             raise NM()
+        def run_body(st, vo, do):
+            """the checker's body: straight-line `if (c) return a;` statements and a final `return b;`"""
+            for s0 in (st.get("s") or [] if st.get("k") == "seq" else [st]):
+                if s0 is None or s0.get("k") == "null":
+                    continue
+                if s0.get("k") == "return":
+                    return truth(s0.get("e"), vo, do)
+                if s0.get("k") == "if" and s0.get("c") is not None:
+                    br = s0.get("then") if truth(s0["c"], vo, do) else s0.get("else")
+                    if br is not None:
+                        r = run_body(br, vo, do)
+                        if r is not None:
+                            return r
+                    continue
+                raise NM()
+            return None
+
         bad = None
         unknown = False
         for vo in "<=>":
             for do in ("le", "gt"):
                 try:
-                    got = truth(ret, vo, do)
+                    got = run_body(f["body"], vo, do)
                 except NM:
+                    unknown = True
+                    break
+                if got is None:
                     unknown = True
                     break
                 want = (vo == beyond) or (vo == "=" and do == "gt")
